@@ -17,17 +17,19 @@ def reg(pid, **kw):
 
 # ------------------------------------------------------------------------------------------- C19
 def plan_c19(tier, seed):
-    return {'verus': [('u_matrix', {})]}
+    return {'verus': [('u_matrix', {}), ('u_round', {})]}
 reg('C19', plan=plan_c19, level='proof', min_obligations=60,
     title='3x3 matrix/vector algebra agrees with its mathematical definition',
-    technique='Verus contracts on the real generic matrix.rs for every exact field T + generated polynomial lemmas (A*inv(A)=I)',
+    technique='Verus contracts on the real generic matrix.rs for every exact field T + generated polynomial lemmas (A*inv(A)=I); the products (mul_arr, mul_vec, mul_mat, dot) additionally for every T obeying the standard model of binary32/binary64 rounding (a-priori error bound)',
     text='Unbounded proof: every function of yuvxyb-math/src/matrix.rs (verbatim, generic) carries a postcondition equating it with the '
          'mathematical product/transpose/cross/dot/inverse over the reals, for EVERY T whose operators are exact field operations '
-         '(one proof covers the f32 and f64 instantiations); lemma_inverse proves A*inv(A)=inv(A)*A=I for every matrix with det != 0.',
+         '(one proof covers the f32 and f64 instantiations); lemma_inverse proves A*inv(A)=inv(A)*A=I for every matrix with det != 0. Rounding: for every T obeying the standard model (relative error 2^-24 per operation; f64 is tighter), '
+         'mul_arr / mul_vec / mul_mat / dot are within row_bound = 3.1*2^-24*sum|a_k b_k| of the exact value, i.e. within 2.3e-6 for entries in [-2,2] (lemma_c19_products) - inside the 1e-5 tolerance. '
+         'Not decided: rounding of cross, scalar_div, component_mul (single operations) and of invert (cancellation; the 1e-4 bound for |det| >= 0.5).',
     note=EXACT + '; the 1e-5/1e-4 tolerances of the statement are assumed to absorb f32/f64 rounding (conditioning argument, not machine-checked). ' + TOOLS,
     assumptions=[EXACT, 'T: Exact axioms (operators are the real field operations); Fx/Fx64 implement them by definition (ghost reals), no axiom admitted',
                  'rounding of f32/f64 stays inside the stated tolerances (not checked)'],
-    not_decided=['f32/f64 rounding error bounds (1e-5*max(1,|exact|), 1e-4 for inverse)'],
+    not_decided=['rounding of invert (1e-4 for |det| >= 0.5) and of the single-operation functions cross / scalar_div / component_mul'],
     design_ref='DESIGN.md §5 C19')
 
 # ------------------------------------------------------------------------------------------- C18
@@ -348,20 +350,21 @@ PRIMS = ['bt470m', 'bt470bg', 'st170m', 'st240m', 'film', 'bt2020', 'st428', 'p3
 def plan_c06(tier, seed):
     hs = []
     for p in PRIMS:
-        hs += [H(f'prim_{p}_to709', domain='input-free', desc=f'{p} -> BT.709: images of e1,e2,e3 within 1e-5 of the columns of M_out^-1*Bradford*M_in (f64, H.273 chromaticities); white -> white; there-and-back'),
+        hs += [H(f'prim_{p}_to709', domain='input-free', desc=f'{p} -> BT.709: images of e1,e2,e3 (= the f32 matrix entries) within 2e-6 of the columns of M_out^-1*Bradford*M_in (f64, H.273 chromaticities); row abs sums <= 5.5; white -> white; there-and-back'),
                H(f'prim_709_to_{p}', domain='input-free', desc=f'BT.709 -> {p}: same checks')]
     hs.append(H('prim_same_is_identity', domain='one symbolic pixel (all f32 triples)', desc='identical primaries: bit-exact identity'))
-    return {'verus': [('u_dispatch', {}), ('u_matrix', {})], 'kani': [{'crate_dir': '', 'inject': [KC], 'harnesses': hs}]}
+    return {'verus': [('u_dispatch', {}), ('u_matrix', {}), ('u_round', {})], 'kani': [{'crate_dir': '', 'inject': [KC], 'harnesses': hs}]}
 reg('C06', plan=plan_c06, level='proof', min_obligations=1000,
     title='Primaries conversion equals the CIE derivation and keeps white white',
     technique='Kani input-free bit-precise evaluation of the real transform_primaries on the basis and white for all 10 non-trivial primaries x 2 directions against the f64 CIE/Bradford derivation; Verus: composition structure, in-place pointwise map, identity clause, exact linearity of mul_arr',
     text='Complete (input-free, rounding included) bit-precise proof that for every supported primaries set P and both directions the real transform_primaries maps e1,e2,e3 to the columns of M_out^-1*Bradford(white_in->white_out)*M_in '
-         '(computed in f64 from the H.273 chromaticities written in the harness) within 1e-5, maps (1,1,1) to (1,1,1) within 1e-5 and returns the basis after there-and-back within 1e-5 (BT.709 itself is the identity case); '
+         '(computed in f64 from the H.273 chromaticities written in the harness) within 2e-6, maps (1,1,1) to (1,1,1) within 1e-5 and returns the basis after there-and-back within 1e-5 (BT.709 itself is the identity case); '
          'Verus proves that ONE matrix, composed as gamut_xyz_to_rgb(out)*white_point_adaptation(in,out)*gamut_rgb_to_xyz(in), is applied to every pixel in place, that equal primaries return the very same Vec (bit-exact), '
-         'and (U-matrix) that mul_arr is the exact linear map, so the basis images determine every pixel with error scaling with |v|. NOT proved: f32 rounding of mul_arr for arbitrary pixels.',
+         'and (U-matrix) that mul_arr is the exact linear map; ALL PIXELS AT ONCE (U-round): under the standard model of binary32 rounding the real mul_arr applied to any pixel with |v_k| <= m is within 1e-5*max(1,m) of the CIE reference '
+         '(lemma_primaries_budget, with the Kani entry bound 2e-6 and row abs sums <= 5.5).',
     note=BITPRECISE + '; ' + EXACT + ' for linearity; ' + '; '.join(DISPATCH_ASSUME[-4:-2]) + '. ' + TOOLS,
-    assumptions=[BITPRECISE, EXACT] + DISPATCH_ASSUME[-4:-2],
-    not_decided=['f32 rounding of the per-pixel product for arbitrary pixels of [-0.5,2]^3 (linear extension of the basis checks; 3 products + 2 sums of magnitude <= 4 add <= ~1e-6)'],
+    assumptions=[BITPRECISE, EXACT, 'SM: standard model of binary32 arithmetic'] + DISPATCH_ASSUME[-4:-2],
+    not_decided=['a bit-precise proof for arbitrary pixels: the per-pixel bound is proved under the standard model of f32 rounding with the Kani entry bounds as hypotheses'],
     design_ref='DESIGN.md §5 C06')
 
 # ------------------------------------------------------------------------------------------- C13
